@@ -329,8 +329,21 @@ PROPS['C03'] = dict(obligations=M_FIXED + M_UNIFORM + M_FLOAT + M_QUANT + M_HEAP
                     assumptions=['float inputs satisfy the documented preconditions (finite, non-negative, positive normal sum); stub distribution: monotone table in [0,1]'],
                     stubs=['probability::distribution::{Distribution, Inverse} implemented by a symbolic table (TableDist)'])
 
+def conv_fixes(cfg, tier, seed):
+    """PRECISION == Probability::BITS (u8 / 8): the two free table entries are concretised (the 256-entry lookup table is then
+    filled by concrete-length memsets and only the quantile forks); small precisions stay fully symbolic"""
+    if not cfg.endswith('p8'): return [None]
+    import random
+    rng = random.Random(seed * 977 + 5)
+    pairs = [(1, 1), (1, 254), (254, 1), (100, 100), (85, 86), (128, 127)]
+    a = rng.randrange(1, 254); pairs.append((a, rng.randrange(1, 255 - a)))
+    if tier != 'quick':
+        for _ in range(10):
+            a = rng.randrange(1, 254); pairs.append((a, rng.randrange(1, 255 - a)))
+    return [dict(arg0=a, arg1=b) for a, b in pairs]
+
 PROPS['C05'] = dict(obligations=[K('m_conv_view', 'models', 'conv_view', tq=900), K('m_conv_symbol_table', 'models', 'conv_symbol_table', tq=900), 
-                                 L('c05_conversions', 'k_c05_conv_{cfg}', ['u8_p3', 'u16_p3'], ['u8_p3', 'u16_p3', 'u8_p4', 'u16_p4'], unwind=20, feas_ms=3000, explore_cap=dict(quick=400, thorough=3000)),
+                                 L('c05_conversions', 'k_c05_conv_{cfg}', ['u8_p3', 'u16_p3', 'u8_p8'], ['u8_p3', 'u16_p3', 'u8_p8', 'u8_p4', 'u16_p4'], unwind=40, feas_ms=3000, fixes=conv_fixes, fork_select=False, explore_cap=dict(quick=400, thorough=3000)),
                                  # CBMC runs out of memory (> 60 GB) on the table-building conversions: attempted in the thorough tier only; engine L (c05_conversions) decides them
                                  K('m_conv_lookup', 'models', 'conv_lookup', tiers=('thorough',), mem_gb=40),
                                  K('m_conv_generic_decoder', 'models', 'conv_generic_decoder', tiers=('thorough',), mem_gb=40), K('m_conv_generic_lookup', 'models', 'conv_generic_lookup', tiers=('thorough',), mem_gb=40), K('m_lazy_vs_eager_f32_n3_p4', 'models', 'lazy_vs_eager_f32_n3_p4', tq=900),
